@@ -293,6 +293,10 @@ def labels(kind):
         return [[n, a] for n in ("a", "b") for a in ([], ["x"], [1])]
     if kind == "four":
         return [["a", []], ["a", ["x"]], ["b", []], ["b", [1]]]
+    if kind == "red7":
+        return labels("red") + [["b", [1, "x"]]]
+    if kind == "ep":
+        return [["a", []], ["a", ["x"]], ["b", [1]], ["b", [1, "x"]]]
     if kind == "falsy":
         return [[n, a] for n in ("", "ab") for a in ([], [0], [""], [None], ["x", 1], [0, "x", "Y"])]
     if kind == "names2":
@@ -333,7 +337,8 @@ UNIVERSES = {
     "UA3": {"nodes": (3, 3), "labels": "full", "lq": lambda tier: lq_big("quick"), "nlev": (1,), "multi": ()},
     "UF": {"nodes": (0, 2), "labels": "falsy", "lq": lq_falsy, "nlev": (1,), "lq2": LQ_F2, "multi": ((False, True), (True, True))},
     "U1": {"nodes": (1, 3), "labels": "red", "lq": lq_med, "nlev": (1, 2), "multi": ((False, True), (True, True))},
-    "U2": {"nodes": (4, 4), "labels": "red", "lq": lq_red, "nlev": (1, 2), "multi": ((False, True), (True, True))},
+    "U2": {"nodes": (4, 4), "labels": "red", "lq": lq_red, "nlev": (1,),
+           "lq2": lambda tier: lq_red(tier)[:3] if tier == "quick" else lq_red(tier), "multi": ((False, True), (True, True))},
     "U2B": {"nodes": (5, 5), "labels": "four", "lq": lambda tier: LQ_5, "nlev": (1, 2), "multi": ((False, True), (True, True))},
     "U3": {"nodes": (5, 5), "labels": None, "lq": lq_names, "nlev": (3,), "multi": ((False, False), (False, True), (True, False), (True, True))},
 }
@@ -352,7 +357,8 @@ def universe_queries(name, tier):
     for n in u["nlev"]:
         out += [list(t) for t in itertools.product(lqs, repeat=n)]
     if "lq2" in u:
-        out += [list(t) for t in itertools.product(u["lq2"], repeat=2)]
+        lq2 = u["lq2"](tier) if callable(u["lq2"]) else u["lq2"]
+        out += [list(t) for t in itertools.product(lq2, repeat=2)]
     return out
 
 
@@ -1111,8 +1117,9 @@ def ep_cases(tier, build):
         for roots in (False, True):
             out.append({"ep": "find", "levels": [l], "deep": True, "roots": roots})
         out.append({"ep": "getitem", "levels": [l], "deep": False, "roots": False})
-    for l1 in two:
-        for l2 in two:
+    two2 = two[:3] if tier == "quick" else two
+    for l1 in two2:
+        for l2 in two2:
             for deep, roots in OPTS:
                 out.append({"ep": "select", "levels": [l1, l2], "deep": deep, "roots": roots})
             for roots in (False, True):
@@ -1148,13 +1155,13 @@ def ep_histories(tier, build):
     if build == "from_dict":
         return out
     judged = ((False, False), (True, True))
-    hs = HIST if build != "nginx" else HIST[:3]
+    hs = HIST if tier == "thorough" and build != "nginx" else HIST[:3]
     for a in hs:
         for b in hs:
             for deep, roots in judged:
                 out.append({"ep": "select", "levels": [b], "deep": deep, "roots": roots, "share": a == b,
                             "before": [{"ep": "select", "levels": [a], "deep": True, "roots": True}]})
-    two = HIST[:2] + HIST[3:]
+    two = (HIST[:2] + HIST[3:]) if tier == "thorough" else [HIST[0], HIST[1], HIST[3]]
     for pre in ([["name", NONE]], [["name", nq_lit("a")]]):
         for a in two:
             for b in two:
@@ -1162,17 +1169,17 @@ def ep_histories(tier, build):
                     out.append({"ep": "chain", "pre": pre, "levels": [b], "deep": deep, "roots": roots, "share": a == b,
                                 "before": [{"ep": "chain", "pre": pre, "levels": [a], "deep": True, "roots": True},
                                            {"ep": "where", "pre": pre, "wq": ["q", ["name", NONE]], "where_style": "args"}]})
-        if build == "nginx":
+        if build == "nginx" or tier == "quick":
             break
     return out
 
 
 def ep_forests(tier, build):
     if tier == "quick":
-        return forests(1, 3, "four")
+        return forests(1, 3, "ep")
     if build in ("entry", "multi"):
-        return itertools.chain(forests(1, 3, "red"), forests(4, 4, "names2"))
-    return forests(1, 3, "red")
+        return itertools.chain(forests(1, 3, "red7"), forests(4, 4, "names2"))
+    return forests(1, 3, "red7")
 
 
 def run_ep_unit(unit, tier, res):
